@@ -4,20 +4,23 @@ CHECKS = {}
 
 CHECKS["C17"] = dict(
     level="model_checking",
-    rule="explicit-state BFS over node/group watch events on a real Agent; a state is non-trivial when both a "
+    rule="(a) explicit-state BFS over node/group watch events on a real Agent; a state is non-trivial when both a "
          "node-specific and a group configuration are present; states are deduplicated on (nodeCfg, groupCfg, "
-         "currentCfg, last delivered)",
-    bound=dict(quick="all event sequences up to depth 6 over a 14-event alphabet",
-               thorough="all event sequences up to depth 9 over a 16-event alphabet"),
+         "currentCfg, last delivered); (b) explicit-state BFS over environment events (add/modify/delete/error events, watch expiry, API unreachable/reachable, retry timer expiry) "
+         "on the real ObjectWatch with its goroutine: the retry timer is owned by the harness (time import redirected to vtime), the fake API's watches are unbuffered, the goroutine is waited for until it blocks in its select; "
+         "oracle: every delivered event reaches the consumer once and in order, the watch always has an open API watch or an armed retry, and it recovers once the API is reachable",
+    bound=dict(quick="agent: all event sequences up to depth 6 over a 14-event alphabet; watch: depth 6 over 8 environment events",
+               thorough="agent: depth 9 over a 16-event alphabet; watch: depth 8"),
     assumptions=["events are delivered by calling Agent.updateNodeConfig/updateGroupConfig directly (the select loop "
                  "in Agent.Start only dispatches to them)", "notify callback never reports a fatal error"],
-    stages=[dict(pkg="./pkg/agent", run="TestVerifC17", shards=1)],
+    stages=[dict(pkg="./pkg/agent", run="TestVerifC17", shards=1),
+            dict(pkg="./pkg/agent/watch", run="TestVerifC17Watch", shards=1)],
 )
 
 CHECKS["C20"] = dict(
     level="exploration", engine="inputx",
     technique="exhaustive enumeration of the whole input range (every mCPU value, every cgroup shares value, a dense capacity interval plus structured families) on the real functions",
-    rule="every CPU request/limit 0..256000 mCPU on the reconstruction function and, for ~6000 structured values x 3 histories (fresh name, previous same-named instance exited but cached, previous instance running), through InsertContainer/GetResourceRequirements of a real cache; every cpu.shares value 2..262144, and every memory capacity of the family "
+    rule="every CPU request/limit 0..256000 mCPU on the reconstruction function; every capacity x oom_score_adj also with memory limits on and around the boundaries of the adjustment's request range and, for ~6000 structured values x 3 histories (fresh name, previous same-named instance exited but cached, previous instance running), through InsertContainer/GetResourceRequirements of a real cache; every cpu.shares value 2..262144, and every memory capacity of the family "
          "(dense interval above 1 MiB + powers of two/ten with deltas + quadratic sweep to 16 TiB + real MemTotal values) x every "
          "Burstable oom_score_adj 3..999; non-trivial = distinct inputs whose encoding is not clamped (cpu) / distinct capacities",
     bound=dict(quick="cpu: full range; capacities: 2^18 dense + ~61k structured", thorough="cpu: full range; capacities: 2^22 dense + ~61k structured"),
@@ -64,7 +67,7 @@ CHECKS["C08"] = dict(
     rule="per generated topology: every subset of online CPUs as candidate set x every count 0..|set|+1 x 4 priorities x flag sets, for AllocateCpus and ReleaseCpus; "
          "each input is run on 4-5 allocators (sorted, fresh, reverse and rotated map order) and all outcomes must agree; "
          "non-trivial = inputs with 0 < cnt < |set| (the allocator actually has to choose)",
-    bound=dict(quick="14 topologies of up to 8 CPUs (incl. hybrid + clustered across two packages), 6 flag sets", thorough="19 topologies of up to 12 CPUs, all 16 flag combinations + default"),
+    bound=dict(quick="15 topologies of up to 8 CPUs (incl. hybrid + clustered across two packages, last-level cache groups in two packages), 6 flag sets", thorough="20 topologies of up to 12 CPUs, all 16 flag combinations + default"),
     assumptions=["map iteration order is controlled through the vgen map-range rewrite (sorted / reverse / rotate policies applied to all sites), not all per-site permutations",
                  "ReleaseCpus semantics as used by its callers: on return *from holds the n released CPUs and the result the CPUs kept"],
     stages=[dict(pkg="./pkg/cpuallocator", run="TestVerifC08", shards=16)],
@@ -110,7 +113,7 @@ CHECKS["C04"] = _resmgr("C04",
     "incl. a balloon that inflates from one NUMA node across both (re-allocation of the zones of the containers in it) and topology-aware cold start (PMEM-only zone, re-allocated to PMEM+DRAM by the cold-start-done event, offered only while the policy has a cold-start timer armed); "
     "oracle after every request: told/cached cpuset.mems = Allocator.AssignedZone, non-empty, nodes with memory; capacity of every node subset; widened zones delivered in the same reply; "
     "non-trivial = states with at least two memory allocations",
-    "12 scenarios (incl. two containers of one balloon widening each other), depth 5", "13 scenarios, depth 6")
+    "14 scenarios (incl. two containers of one balloon widening each other, reconfiguration between admissions), depth 5; an allocation weighs what its container needs (request reconstructed by the cache, else limit), not what the allocator remembers", "15 scenarios, depth 6")
 CHECKS["C12"] = _resmgr("C12",
     "explicit-state BFS over histories in which opted-out containers (cpu.preserve / memory.preserve at container, pod and bare level, balloons preserve rule, pinCPU/pinMemory off globally or per balloon type) are created with a "
     "non-empty runtime cpuset and coexist with containers that cause re-balancing (shared-set shrink/grow, balloon inflate/deflate, zone widening under memory pressure incl. a Burstable memory-only opt-out), with updates, synchronize, reconfigure and the end of cold-start periods; "
@@ -124,9 +127,8 @@ CHECKS["C13"] = _resmgr("C13",
 
 CHECKS["C10"] = dict(
     level="fault_enumeration", engine="crashx",
-    technique="explicit-state search over cache operation histories; for every save of every history: enumeration of every crash point (each primitive filesystem step, each byte offset of a write into the cache file) and every single step failure through an os shim; exhaustive permission matrix",
-    rule="all histories of 20 cache operations (incl. a pod whose resources arrive asynchronously from the pod resources API after InsertPod has saved, and a plugin restart: a new cache instance on the same state directory, not rendered before the next save) up to the depth bound on a real cache that starts on a fresh state directory (the very first save, into a directory without a cache file, is hooked and judged too); per save: the directory state at every primitive-step boundary and at every byte offset of a write that targets the cache file itself "
-         "(offsets of writes into the temporary file leave the cache file untouched and are reloaded at the first, middle and last byte only) is materialised and loaded with NewCache; every primitive step is made to fail once "
+    technique="explicit-state search over cache operation histories; for the last operation of every history: enumeration of every crash state of the real state directory (step boundaries and partial-write prefixes), each reloaded and continued by one more operation; every single step failure through an os shim; exhaustive permission matrix",
+    rule="all histories of 20 cache operations (incl. a pod whose resources arrive asynchronously from the pod resources API after InsertPod has saved, and a plugin restart: a new cache instance on the same state directory, not rendered before the next save) up to the depth bound on a real cache that starts on a fresh state directory (the very first save, into a directory without a cache file, is hooked and judged too); per operation: snapshots of the REAL state directory before and after every intercepted filesystem step (steps made through an opened *os.File show up as the difference of two snapshots) and, between two snapshots, every sequential-overwrite prefix new[:k]+old[k:] of each changed file (every k for the cache file; first, middle and last for other files) are materialised; each crash state must load, load to the previous or a newly completed snapshot, and be continuable: a new instance on it makes one more (shrinking) change, saves, and the directory must load to that instance's view; every primitive step is made to fail once "
          "(EIO, also with short writes); target x kind x all 512 modes for the permission clause; non-trivial = histories containing a container / refused permission cases",
     bound=dict(quick="depth 3 histories; 7680 permission cases", thorough="depth 5 histories; 7680 permission cases"),
     assumptions=["crash = process kill or failed system call (no power-loss / unsynced-data model; the code does not fsync)",
@@ -185,7 +187,7 @@ CHECKS["C15"] = dict(
     rule="(A) a real resource manager whose RWMutex is the scheduler-aware shim and whose cache/policy fields are access-checking proxies; 2-3 logical threads, 1-2 requests each, on colliding pods/containers; every schedule up to the preemption "
          "bound; oracle: every proxied cache/policy access happens under the resource manager lock, no deadlock, no panic, final state equals the final state of some sequential order, and a reply is still what its handler returned when it is consumed "
          "(a scheduling point of its own between the handler's return and the consumption of its reply models the transport); "
-         "(B) InsertPod + GetPodResources vs the fetch goroutine vs the environment (go/chan operations rewritten to scheduler calls); states = schedules executed, transitions = scheduling points; non-trivial = schedules; "
+         "(B) InsertPod + GetPodResources vs the fetch goroutine vs the environment (go/chan operations rewritten to scheduler calls), incl. that only handler threads write the state directory; states = schedules executed, transitions = scheduling points; non-trivial = schedules; "
          "(C) corroboration, not part of the decision: the same menus run free (real goroutines, no scheduler, 30/300 repetitions each) in a -race binary, replies consumed after the handler returns; a race-detector report is a violation, silence adds nothing to the coverage statement",
     bound=dict(quick="preemption bound 2", thorough="preemption bound 3 (pipeline) / unbounded (fetch)"),
     assumptions=["scheduling points: resmgr lock operations, proxied cache/policy calls, the hand-over of a reply, goroutine creation and channel operations in cache/pod.go; plain memory accesses between points are atomic for the exhaustive part (unsynchronised accesses between points are only sampled, by the free-running race-detector pass)",
